@@ -1655,9 +1655,12 @@ func checkNetListener(c *checkCtx) {
 	c.rule = "one execution = Listen on a unix path, 1..4 client sessions (file / memfd mapping) x 1..32 streams from PRNG(VERIF_SEED, index): keyed header + 1..5 keyed messages of " +
 		"1 B..300 KB per stream, echoed by one handler per accepted conn with PRNG read-buffer sizes; per stream: closed by the client or by the server, finishing before or after " +
 		"the listener close, or still queued in the backlog at the listener close; read-deadline tests on a quarter of the conns; the listener is closed when a PRNG number of " +
-		"streams has completed and all others have surfaced / are queued. Non-trivial = at the listener close at least one accepted conn was still open or the backlog was not " +
+		"streams has completed and all others have surfaced / are queued (or, in half of the backlog cases, merely written: stream data in flight at the listener close). " +
+		"Directed rounds: 1..3 sessions with accepted conns held open, 1..8 streams per session opened after the listener close / racing with it / racing with the close of " +
+		"the last conn; then Accept-until-error, close everything, sessions must end and nothing may panic. Non-trivial = at the listener close at least one accepted conn was still open or the backlog was not " +
 		"empty (measured). Distinct = distinct (clients, streams, backlog streams, late streams, close point, backlog length and open conns at Close, conns handed out after Close, " +
-		"bucketed numbers of conn closes before / after the listener close, stream mode multiset)."
+		"bucketed numbers of conn closes before / after the listener close, stream mode multiset); for directed rounds: at least one late stream was written, distinct (variant, sessions, " +
+		"held conns, late streams bucket, conns handed out after Close)."
 	c.assume("server sessions are created by the listener with the library's DefaultConfig (1 s handshake time-out); a client whose server side did not register is an inconclusive case")
 	c.assume("'as on a socket' is read behaviourally: an error at a past deadline when no data is pending, no time-out before a future deadline, usable after the deadline is moved; " +
 		"the error need not implement net.Error; SetDeadline/Close after Close and write deadlines are not judged")
@@ -1740,9 +1743,13 @@ func checkNetListener(c *checkCtx) {
 			c.inconclusiveCase(fmt.Sprintf("nl-late-%d", cur-nGeneral), "worker died of a memory fault in a client call racing with session teardown (known finding F2, not judged here): "+truncate(nlPanicLine(ex.Stderr), 200))
 			from = cur + 1
 		case ex.Signal != "" || (ex.Exited && ex.Code != 0):
-			cs := nlGenCase(c.seed, cur)
-			c.violation(fmt.Sprintf("nl-%d-process-died", cur), map[string]interface{}{"case": cs, "exit": ex.Code, "signal": ex.Signal, "stderr": truncate(ex.Stderr, 10000)},
-				"the worker process died during case nl-%d (exit %d signal %q): a panic/fault on a library goroutine: %s", cur, ex.Code, ex.Signal, truncate(nlPanicLine(ex.Stderr), 500))
+			var cs interface{} = nlGenCase(c.seed, cur)
+			cname := fmt.Sprintf("nl-%d", cur)
+			if cur >= nGeneral {
+				cs, cname = nlGenDirCase(c.seed, cur-nGeneral), fmt.Sprintf("nl-late-%d", cur-nGeneral)
+			}
+			c.violation(cname+"-process-died", map[string]interface{}{"case": cs, "exit": ex.Code, "signal": ex.Signal, "stderr": truncate(ex.Stderr, 10000)},
+				"the worker process died during case %s (exit %d signal %q): a panic/fault on a library goroutine: %s", cname, ex.Code, ex.Signal, truncate(nlPanicLine(ex.Stderr), 500))
 			from = cur + 1
 		default:
 			c.inconclusiveCase(fmt.Sprintf("nl-%d", cur), "worker ended without a complete report")
